@@ -189,7 +189,8 @@ def _limit_memory():
 
 
 def check(case):
-    """case: {'src': text, 'full': bool, 'tl': seconds per configuration}
+    """case: {'src': text, 'full': bool, 'tl': seconds per configuration,
+    'warm': [texts compiled before (at -O0) in this process, outcome ignored]}
     -> {'res': [[level, debug, verdict], ...], 'parsed': bool}
     The text is compiled at (-O0, no -g) first; when the failure (if any) did
     not happen inside parse_string / tree.bind / Pass1-3 (steps that do not
@@ -205,6 +206,16 @@ def check(case):
     # a spurious timeout
     old = signal.signal(signal.SIGPROF, _alarm)
     try:
+        for w in case.get('warm') or []:
+            # an earlier compilation in the same process (module-level state
+            # of the compiler must not leak into the next text)
+            signal.setitimer(signal.ITIMER_PROF, tl, 1.0)
+            try:
+                one_config(w, 0, False)
+            except _Timeout:
+                pass
+            finally:
+                signal.setitimer(signal.ITIMER_PROF, 0)
         for i, (level, debug) in enumerate(CONFIGS):
             if i > 0 and (not parsed or not case.get('full', True)):
                 break
